@@ -18,10 +18,27 @@ def carries_line(e, fi):
     if isinstance(e, ast.Name):
         params = {a.arg for a in fi.node.args.args + fi.node.args.kwonlyargs}
         f = fi
+        outer = set()
         while f.parent is not None:
             f = f.parent
-            params |= {a.arg for a in f.node.args.args}
-        return e.id == "lineno" and e.id in params
+            outer |= {a.arg for a in f.node.args.args}
+        if e.id != "lineno" or e.id not in (params | outer):
+            return False
+        if e.id in params:
+            # the name must still denote the parameter here: a local rebinding (e.g. to an argument's line) makes it the
+            # line of a different object
+            cfg = K.cfg_of(_IDX[0], fi) if _IDX else None
+            if cfg is not None:
+                rd = cfg.reaching_defs()
+                for n in cfg.nodes:
+                    if n.ast is not None and n.kind in ("call", "raise", "store", "return") and any(x is e for x in ast.walk(n.ast)):
+                        defs = rd.get(n, {}).get(e.id, frozenset())
+                        if defs and defs != frozenset(["param"]):
+                            locals_ = [d for d in defs if d != "param"]
+                            all_lines = all(d.kind == "store" and d.meta.get("value") is not None and isinstance(d.meta["value"], (ast.Attribute, ast.Call, ast.IfExp, ast.Subscript)) and carries_line(d.meta["value"], fi) for d in locals_)
+                            if "param" in defs or not all_lines:
+                                return False  # the parameter mixed with a local rebinding: the line of a different object
+        return True
     if isinstance(e, ast.Attribute):
         return e.attr == "lineno"
     if isinstance(e, ast.Call) and isinstance(e.func, ast.Attribute) and e.func.attr == "get" and isinstance(e.func.value, ast.Attribute) and e.func.value.attr == "argument_lines":
@@ -38,6 +55,9 @@ def carries_line(e, fi):
     return False
 
 
+_IDX = []
+
+
 def newline_increment(rule):
     """(form, expr text) of the `lexer.lineno += ...` in a token function, or (None, None)"""
     fn = rule.node
@@ -48,6 +68,13 @@ def newline_increment(rule):
         if isinstance(n, ast.AugAssign) and isinstance(n.op, ast.Add) and isinstance(n.target, ast.Attribute) and n.target.attr == "lineno":
             s = K.src(n.value).replace(" ", "").replace('"', "'")
             v = "%s.value" % t
+            # the count must be taken on the raw token text: no rewrite of <t>.value may reach the increment
+            from engine.cfg import CFG
+            c = CFG(fn)
+            augs = [x for x in c.find("aug") if x.ast is n]
+            rewrites = [x for x in c.find("store") if x.meta.get("attr") == "value" and isinstance(x.ast.value, ast.Name) and x.ast.value.id == t]
+            if augs and any(augs[0] in c.reachable(w) for w in rewrites):
+                return "after-rewrite", s
             if s == "len(%s)" % v:
                 return "len", s
             if s == "%s.count('\\n')" % v:
@@ -72,6 +99,8 @@ def run(ctx, idx):
     ctx.rule("C11.d", "Threading: from_source passes the node's line into every Argument/ListArgument and add_command; add_command passes it to the command; Command.__init__ keeps it and builds argument_lines from the arguments' lines; every call of clean passes a line-carrying expression.")
     ctx.rule("C11.e", "Every raise of a ProgramError subclass in program.py, commands.py, params.py and utils.convert_eems2_commands binds the constructor's lineno parameter to a line-carrying expression of the offending object.")
     ctx.rule("C11.f", "The CLI marks lines[ex.lineno - 1] and `lines` is the same split that was joined into the source handed to from_source.")
+    del _IDX[:]
+    _IDX.append(idx)
     L = grammar.Lexicon(idx)
     pmod = L.mod
     # ------------------------------------------------------------------ a
@@ -144,7 +173,9 @@ def run(ctx, idx):
             ctx.hold("C11.b", con, pmod.rel, r.node.lineno, "language of %r cannot contain LF" % r.pattern)
             continue
         form, text = newline_increment(r)
-        if form in ("count_lf", "terminators"):
+        if form == "after-rewrite":
+            ctx.violate("C11.b", con, pmod.rel, r.node.lineno, "token %s counts line breaks (`%s`) after its value has been rewritten (escape sequences decoded): an escape like \\n is counted as a source line break" % (r.token, text))
+        elif form in ("count_lf", "terminators"):
             ctx.hold("C11.b", con, pmod.rel, r.node.lineno, "token may span lines (witness %r) and adds %s to the counter" % (w, text))
         else:
             ctx.violate("C11.b", con, pmod.rel, r.node.lineno, "token %s can contain a line break (witness %r) but never advances the line counter: every later line number is too small" % (r.token, w))
